@@ -74,6 +74,16 @@ def import_chartparse() -> None:
         raise RuntimeError(f"chartparse imported from {got}, expected {PKG_DIR}")
 
 
+def import_chartparse_plain() -> None:
+    """Import for fresh interpreters started with fresh_interpreter_env (PYTHONPATH already
+    points at the tree; compiled files live in this invocation's scratch only)."""
+    import chartparse.chart  # noqa: F401
+
+    got = os.path.dirname(os.path.abspath(sys.modules["chartparse"].__file__ or ""))
+    if got != PKG_DIR:
+        raise RuntimeError(f"chartparse imported from {got}, expected {PKG_DIR}")
+
+
 def fresh_interpreter_env(hashseed: int | str) -> dict[str, str]:
     """Environment for a genuinely fresh interpreter that imports chartparse from the tree."""
     env = {
